@@ -368,6 +368,8 @@ fn ms(ms: u64) -> u64 {
 
 fn app_main(node: u32, inc: u32, spec: NodeSpec, from_ms: u64, sc: Arc<Scenario>, obs: ObsLog) {
     let start = spec.start_ms.max(from_ms);
+    // which public constructors build the records this application registers
+    bridge::STYLE.with(|s| s.set(if sc.seed % 2 == 0 { simrt::rng::mix(sc.seed, 0x57E) | 1 } else { 0 }));
     ctl::sleep_until_ns(ms(start));
     ctl::mark(format!("ctor:{}:{}", node, inc));
     let mut timeout_ms = 3000u64;
